@@ -131,6 +131,13 @@ def c05_target(di, k, op, mat):
         if op == 'delete':
             node.delete()
             new = ''
+        elif op == 'replace' and mat == 'wrap':
+            node.replace_with('(', node, ')')        # the target itself between two new strings
+            new = '(' + src[start:end] + ')'
+        elif op == 'replace' and mat == 'twice':
+            m = TexSoup('\\n{1}').n.copy()
+            node.replace_with(node, m)
+            new = src[start:end] + '\\n{1}'
         elif op == 'replace':
             objs, new = material(mat)
             node.replace_with(*objs)
